@@ -5,10 +5,11 @@ cd /repo || exit 3
 if [ -n "$(git status --porcelain --untracked-files=no)" ]; then echo "/repo not clean"; exit 3; fi
 git apply "$patch" || { echo "patch does not apply"; exit 3; }
 trap 'git -C /repo checkout -- . ' EXIT INT TERM
-cd /verif && ./check "$pid" --tier quick "$@" > /tmp/seedtest.$$.log 2>&1
+mkdir -p /tmp/seedtest-out.$$
+cd /verif && VERIF_MC_OUT=/tmp/seedtest-out.$$ ./check "$pid" --tier quick "$@" > /tmp/seedtest.$$.log 2>&1
 rc=$?
 grep -E "^VIOLATION|^KNOWN|HARNESS" /tmp/seedtest.$$.log | cut -c1-220 | head -8
 grep -E "^   sub-check" /tmp/seedtest.$$.log | cut -c1-300 | head -4
 echo "rc=$rc"
-rm -f /tmp/seedtest.$$.log
+rm -rf /tmp/seedtest.$$.log /tmp/seedtest-out.$$
 exit 0
